@@ -105,38 +105,47 @@ top:
 			qual = string(sym)
 		}
 	}
-	if m := aux.methods[string(key)]; m != nil {
+	// The method table is changed in place by defmethod and remove-method
+	// so take a copy of the combination while holding the lock.
+	var c slip.Combination
+	aux.moo.Lock()
+	m := aux.methods[string(key)]
+	if m != nil && 0 < len(m.Combinations) {
+		c = *m.Combinations[0]
+	}
+	aux.moo.Unlock()
+	if m != nil {
 		switch qual {
 		case ":primary":
-			if m.Combinations[0].Primary != nil {
+			if c.Primary != nil {
 				meth = &slip.Method{
 					Name:         m.Name,
 					Doc:          m.Doc,
-					Combinations: []*slip.Combination{{Primary: m.Combinations[0].Primary}},
+					Combinations: []*slip.Combination{{Primary: c.Primary}},
 				}
 			}
 		case ":before":
-			if m.Combinations[0].Before != nil {
+			if c.Before != nil {
 				meth = &slip.Method{
 					Name:         m.Name,
 					Doc:          m.Doc,
-					Combinations: []*slip.Combination{{Before: m.Combinations[0].Before}},
+					Combinations: []*slip.Combination{{Before: c.Before}},
 				}
 			}
 		case ":after":
-			if m.Combinations[0].After != nil {
+			if c.After != nil {
 				meth = &slip.Method{
 					Name:         m.Name,
 					Doc:          m.Doc,
-					Combinations: []*slip.Combination{{After: m.Combinations[0].After}},
+					Combinations: []*slip.Combination{{After: c.After}},
 				}
 			}
 		case ":around":
-			if m.Combinations[0].Wrap != nil {
+			if c.Wrap != nil {
 				meth = &slip.Method{
 					Name:         m.Name,
 					Doc:          m.Doc,
-					Combinations: []*slip.Combination{{Wrap: m.Combinations[0].Wrap}},
+					Combinations: []*slip.Combination{{Wrap: c.Wrap}},
 				}
 			}
 		default:
